@@ -15,277 +15,10 @@
 #ifdef C09_GEN_GOLDEN
 #undef main
 #endif
-#include <igris/serialize/serialize_archive.h>
+#include "new_fw.h"
 #ifdef C09_VALGRIND
 #include <valgrind/valgrind.h>
 #endif
-
-using namespace c09;
-template <class T> using vec = std::vector<T>;
-
-struct NewFw
-{
-    template <class T> static std::string enc(const T &v) { return igris::serialize(v); }
-    template <class T> static T dec(const char *p, size_t n)
-    {
-        igris::deserialize_buffer_storage st(igris::buffer(p, n));
-        return igris::deserialize<T>(st);
-    }
-    // serialize(obj, storage) into a caller-owned string_storage; deserialize<T>(std::string)
-    template <class T> static const char *extra(const T &v, const std::string &enc)
-    {
-        igris::string_storage st;
-        igris::serialize(v, st);
-        if (st.storage() != enc)
-            return "serialize(obj, storage): bytes differ from serialize(obj)";
-        if (enc.size() <= 4096 && !same(igris::deserialize<T>(enc), v))
-            return "deserialize<T>(std::string) != v";
-        return nullptr;
-    }
-    struct Reader
-    {
-        size_t n;
-        igris::deserialize_buffer_storage st;
-        Reader(const char *p, size_t n_) : n(n_), st(igris::buffer(p, n_)) {}
-        template <class T> void get(T &out)
-        {
-            igris::deserializer<igris::deserialize_buffer_storage> ar(st);
-            ar.deserialize(out);
-        }
-        size_t pos() { return n - (size_t)st.avail(); }
-    };
-};
-
-// user types exposing serialize_reflect() (const overload for the writer, non-const for the reader)
-struct T1
-{
-    int32_t a = 1;
-    uint8_t b = 2;
-    int16_t c = 3;
-    template <class Ar> void serialize_reflect(Ar &ar)
-    {
-        ar &a;
-        ar &b;
-        ar &c;
-    }
-    template <class Ar> void serialize_reflect(Ar &ar) const
-    {
-        ar &a;
-        ar &b;
-        ar &c;
-    }
-    auto tie() { return std::tie(a, b, c); }
-    auto tie() const { return std::tie(a, b, c); }
-};
-struct T2
-{
-    vec<int32_t> v;
-    T1 t;
-    double d = 0;
-    vec<T1> ts;
-    template <class Ar> void serialize_reflect(Ar &ar)
-    {
-        ar &v;
-        ar &t;
-        ar &d;
-        ar &ts;
-    }
-    template <class Ar> void serialize_reflect(Ar &ar) const
-    {
-        ar &v;
-        ar &t;
-        ar &d;
-        ar &ts;
-    }
-    auto tie() { return std::tie(v, t, d, ts); }
-    auto tie() const { return std::tie(v, t, d, ts); }
-};
-// a vector member with a default initialiser
-struct T3
-{
-    int8_t tag = 5;
-    vec<int16_t> v = {1, 2, 3};
-    template <class Ar> void serialize_reflect(Ar &ar)
-    {
-        ar &tag;
-        ar &v;
-    }
-    template <class Ar> void serialize_reflect(Ar &ar) const
-    {
-        ar &tag;
-        ar &v;
-    }
-    auto tie() { return std::tie(tag, v); }
-    auto tie() const { return std::tie(tag, v); }
-};
-
-// ---- user types whose serialize_reflect() is conditional: decoding does not assign every member
-struct NOpt // presence flag + optional block
-{
-    int16_t id = 0;
-    uint8_t has = 0;
-    int32_t x = 0;
-    vec<uint8_t> s;
-    template <class Self, class Ar> static void sr(Self &self, Ar &ar)
-    {
-        ar &self.id;
-        ar &self.has;
-        if (self.has)
-        {
-            ar &self.x;
-            ar &self.s;
-        }
-    }
-    template <class Ar> void serialize_reflect(Ar &ar) { sr(*this, ar); }
-    template <class Ar> void serialize_reflect(Ar &ar) const { sr(*this, ar); }
-    auto tie() { return std::tie(id, has, x, s); }
-    auto tie() const { return std::tie(id, has, x, s); }
-    static constexpr bool c09_custom = true;
-    static constexpr size_t c09_min_cost = 3;
-    static NOpt c09_gen(Gen &g)
-    {
-        NOpt o;
-        o.id = gen<int16_t>(g);
-        bool with = g.r.chance(1, 3) ? g.r.chance(1, 2) : (g.alt++ & 1) == 0;
-        g.budget -= 1;
-        o.has = with ? (uint8_t)(1 + g.r.below(255)) : 0;
-        if (with)
-        {
-            o.x = gen<int32_t>(g) | 1;
-            o.s = gen<vec<uint8_t>>(g);
-            if (o.s.empty())
-                o.s.push_back(7);
-        }
-        return o;
-    }
-    void c09_ref(std::string &out) const
-    {
-        ref_enc(id, out);
-        ref_enc(has, out);
-        if (has)
-        {
-            ref_enc(x, out);
-            ref_enc(s, out);
-        }
-    }
-};
-struct NVar // tag + one of several members
-{
-    uint8_t tag = 0;
-    int16_t i = 0;
-    vec<int16_t> w;
-    vec<uint8_t> v;
-    template <class Self, class Ar> static void sr(Self &self, Ar &ar)
-    {
-        ar &self.tag;
-        if (self.tag == 0)
-            ar &self.i;
-        else if (self.tag == 1)
-            ar &self.w;
-        else
-            ar &self.v;
-    }
-    template <class Ar> void serialize_reflect(Ar &ar) { sr(*this, ar); }
-    template <class Ar> void serialize_reflect(Ar &ar) const { sr(*this, ar); }
-    auto tie() { return std::tie(tag, i, w, v); }
-    auto tie() const { return std::tie(tag, i, w, v); }
-    static constexpr bool c09_custom = true;
-    static constexpr size_t c09_min_cost = 3;
-    static NVar c09_gen(Gen &g)
-    {
-        NVar a;
-        g.budget -= 1;
-        a.tag = (uint8_t)(g.r.chance(1, 2) ? g.alt++ % 3 : g.r.below(3));
-        if (a.tag == 0)
-            a.i = (int16_t)(gen<int16_t>(g) | 1);
-        else if (a.tag == 1)
-        {
-            a.w = gen<vec<int16_t>>(g);
-            if (a.w.empty())
-                a.w.push_back(-3);
-        }
-        else
-        {
-            a.v = gen<vec<uint8_t>>(g);
-            if (a.v.empty())
-                a.v.push_back(9);
-        }
-        return a;
-    }
-    void c09_ref(std::string &out) const
-    {
-        ref_enc(tag, out);
-        if (tag == 0)
-            ref_enc(i, out);
-        else if (tag == 1)
-            ref_enc(w, out);
-        else
-            ref_enc(v, out);
-    }
-};
-struct NCnt // count + that many members
-{
-    int16_t id = 0;
-    uint8_t n = 0;
-    int32_t m0 = 0, m1 = 0, m2 = 0;
-    template <class Self, class Ar> static void sr(Self &self, Ar &ar)
-    {
-        ar &self.id;
-        ar &self.n;
-        if (self.n > 0)
-            ar &self.m0;
-        if (self.n > 1)
-            ar &self.m1;
-        if (self.n > 2)
-            ar &self.m2;
-    }
-    template <class Ar> void serialize_reflect(Ar &ar) { sr(*this, ar); }
-    template <class Ar> void serialize_reflect(Ar &ar) const { sr(*this, ar); }
-    auto tie() { return std::tie(id, n, m0, m1, m2); }
-    auto tie() const { return std::tie(id, n, m0, m1, m2); }
-    static constexpr bool c09_custom = true;
-    static constexpr size_t c09_min_cost = 3;
-    static NCnt c09_gen(Gen &g)
-    {
-        NCnt c;
-        c.id = gen<int16_t>(g);
-        g.budget -= 1;
-        c.n = (uint8_t)(g.r.chance(1, 2) ? 3 - g.alt++ % 4 : g.r.below(4));
-        int32_t *m[3] = {&c.m0, &c.m1, &c.m2};
-        for (int k = 0; k < c.n; k++)
-            *m[k] = gen<int32_t>(g) | 1;
-        return c;
-    }
-    void c09_ref(std::string &out) const
-    {
-        ref_enc(id, out);
-        ref_enc(n, out);
-        if (n > 0)
-            ref_enc(m0, out);
-        if (n > 1)
-            ref_enc(m1, out);
-        if (n > 2)
-            ref_enc(m2, out);
-    }
-};
-struct NE // conditional types as members and in a vector member
-{
-    NOpt o;
-    vec<NCnt> cs;
-    NVar v;
-    vec<NOpt> os;
-    template <class Self, class Ar> static void sr(Self &self, Ar &ar)
-    {
-        ar &self.o;
-        ar &self.cs;
-        ar &self.v;
-        ar &self.os;
-    }
-    template <class Ar> void serialize_reflect(Ar &ar) { sr(*this, ar); }
-    template <class Ar> void serialize_reflect(Ar &ar) const { sr(*this, ar); }
-    auto tie() { return std::tie(o, cs, v, os); }
-    auto tie() const { return std::tie(o, cs, v, os); }
-};
 
 // ---------------------------------------------------------------- (4) truncation through the bounded reader
 template <class T> static void check_truncations(const char *tname, const T &v, vf::Rng &r, int placement)
